@@ -73,6 +73,7 @@ ASSUMPTIONS = [
 
 EPS32 = 2.0 ** -23
 NAN = float("nan")
+D19_SIGNATURE = "Bernoulli attachment|raises ValueError|number outside {0, 1} stored at a masked entry"
 
 FILLS = {"0": 0.0, "1": 1.0, "7.5": 7.5, "-3e30": -3e30, "nan": NAN, "inf": float("inf"), "-inf": float("-inf")}
 FILL_ORDER = ["0", "1", "7.5", "-3e30", "nan", "inf", "-inf"]
@@ -639,7 +640,9 @@ def run_stats_base(acc, name_model, model, spec, shape, pattern, fills, extras=E
             if ea is not None and (eb is None or ea[:2] != eb[:2]):
                 stage, typ, msg = ea
                 if typ == "ValueError" and spec["noise"] == "bernoulli" and "support" in msg and relation == "fill" and fill_value(label) not in (0.0, 1.0):
-                    feature = "bernoulli, number outside {0, 1} stored at a masked entry"
+                    # one defect, one signature, whatever entry point meets it first (design D19)
+                    acc.violation(D19_SIGNATURE, f"{stage}: {msg}", case)
+                    return "raises"
                 elif relation == "fill":
                     feature = f"{noise}, {fill_class(label)}"
                 else:
@@ -819,8 +822,9 @@ def run_slow_base(acc, part, algo, name_model, spec, shape, pattern, variants, o
                 continue
             if ea:
                 if ea[1] == "ValueError" and spec["noise"] == "bernoulli" and "support" in ea[2] and fill_value(label) not in (0.0, 1.0):
-                    feature = "bernoulli, number outside {0, 1} stored at a masked entry"
-                acc.violation(f"{site}|raises {ea[1]}|{feature}", ea[2], case)
+                    acc.violation(D19_SIGNATURE, f"{site}: {ea[2]}", case)
+                else:
+                    acc.violation(f"{site}|raises {ea[1]}|{feature}", ea[2], case)
             else:
                 acc.violation(f"{site}|{eb[1]} only on the loader's own tensors|{feature}", eb[2], case)
             acc.outcome(f"{algo}:raises")
@@ -895,7 +899,8 @@ def shards(tier, seed):
         dim = MODEL_SPECS[name]["dim"]
         for shape in SLOW_SHAPES[tier][dim]:
             for chunk in _chunks(patterns(shape, dim), 8):
-                out.append({"part": "slow", "model": name, "shape": list(shape), "patterns": chunk, "variants": SLOW_VARIANTS[tier],
+                variants = list(SLOW_VARIANTS[tier]) + ([("1", 0)] if MODEL_SPECS[name]["noise"] == "bernoulli" else [])
+                out.append({"part": "slow", "model": name, "shape": list(shape), "patterns": chunk, "variants": variants,
                             "algos": ["fit", "mode_posterior", "mean_posterior"]})
     for name in SCIPY_MODELS[tier]:
         dim = MODEL_SPECS[name]["dim"]
